@@ -134,18 +134,8 @@ def run(ctx):
                 if x.get("k") != "loop":
                     continue
                 n_loops += 1
-                good = False
-                if x.get("src") == "while":
-                    inner = H.strip_block(x["body"])
-                    if inner.get("k") == "block":
-                        inner = H.strip_block(inner.get("expr", {}))
-                    if inner.get("k") == "if":
-                        c = H.strip_block(inner["cond"])
-                        if c.get("k") == "letexpr" and H.pat_ctor(c["pat"]) == "core::option::Option::Some":
-                            i = H.strip_block(c["init"])
-                            if i.get("k") == "try":
-                                i = H.strip_block(i["e"])
-                            good = i.get("callee") in ("serde_core::de::MapAccess::next_key", "serde_core::de::SeqAccess::next_element", "serde_core::de::MapAccess::next_entry")
+                cl = H.consuming_loop(x)
+                good = cl is not None and cl["next"].get("callee") in H.NEXT_CALLS
                 ctx.oblige("C04|loop|%s" % fn["path"], good, "a loop in %s is not an input-consuming `while let Some(_) = next_key()/next_element()?` loop: termination is not evident" % fn["path"], cfg=cfg, where=H.line(x))
         ctx.floor("input-consuming loops", n_loops, 15, cfg=cfg)
         # every other public decodable type (responses, options, enums ... decoded with cbor_deserialize::<T>): their
